@@ -514,7 +514,9 @@ def judge(frames: List[Tuple[int, bytes]], segs: List[int], res: W.EntryResult,
             if t == "sf":
                 n = d[0] & 0xF
                 ok = p == d[1:1 + n]
-                if not ok and n == 0 and len(d) >= 2:
+                if not ok and n == 0 and len(d) > 8:
+                    # the length escape (length in the second byte) exists for CAN FD frames only; a classic frame
+                    # with a zero length nibble carries no payload (ISO 15765-2 9.6.2) - seeded change C13-O
                     ok = p == d[2:2 + d[1]]
             elif t in ("ff", "cf") and fid in hist:
                 ok = dp_accepts(hist[fid], p)
